@@ -132,8 +132,21 @@ impl CertificateSigningRequestParams {
 			return Err(Error::UnsupportedSignatureAlgorithm);
 		}
 
-		if let Some(extensions) = csr.requested_extensions() {
-			for ext in extensions {
+		// Every extension request attribute counts, not only the first one.
+		let requests = info
+			.iter_attributes()
+			.filter_map(|attr| match attr.parsed_attribute() {
+				x509_parser::cri_attributes::ParsedCriAttribute::ExtensionRequest(requested) => {
+					Some(requested)
+				},
+				_ => None,
+			});
+		for requested in requests {
+			for ext in requested
+				.extensions
+				.iter()
+				.map(|ext| ext.parsed_extension())
+			{
 				match ext {
 					x509_parser::extensions::ParsedExtension::KeyUsage(key_usage) => {
 						// This x509 parser stores flags in reversed bit BIT STRING order
